@@ -181,6 +181,12 @@ func RunJob(j *Job) *Stats {
 		}
 		for _, h := range hs {
 			res, verdict := RunOne(f, h, j.Eager)
+			// an infrastructure failure (a loopback port, a server start under load) is retried: it says
+			// nothing about the property and must not end the check
+			for try := 0; try < 4 && res != nil && res.Infra != ""; try++ {
+				time.Sleep(time.Duration(50<<try) * time.Millisecond)
+				res, verdict = RunOne(f, h, j.Eager)
+			}
 			st.Histories++
 			if st.Sample == nil && j.Shard == 0 {
 				st.Sample = HistoryString(h)
